@@ -62,7 +62,7 @@ func VerifConnStateStepInductive() {
 		wbSetPre(e, 0, p, verif.Choice("pre", 2+verifNV))
 	}
 	verif.Assume(e.count(0) <= e.max)
-	wbSetPre(e, 1, 0, verif.Choice("frame", 3))
+	wbSetPre(e, 1, 0, 1+verif.Choice("frame", 2))
 	verif.Cover("pre-at-capacity", e.count(0) == e.max)
 	e.connStep()
 	wbCheckRep(e)
